@@ -641,7 +641,7 @@ func replayC10(env *mc.Env, raw json.RawMessage) (bool, string) {
 
 func init() {
 	mc.Register(&mc.Check{
-		ID: "C10",
+		ID:   "C10",
 		Rule: "every program of: 9 interface graphs on <= 3 interfaces (single, chains, forks, diamond, vee, redundant conformance) x per-interface declaration variant of f (absent / pre / post / both with emit conditions / with or without default body; 6 variants quick, 10 thorough) x composite (inherits the default / overrides / overrides with own conditions and emits) x struct/resource, accepted by the checker; each is called with a non-falsifying argument through every call site (direct, interface-typed reference, nested inside another conditioned function, bound function) and once per applicable condition with the argument that falsifies exactly that condition (x != k, unique k); non-trivial = distinct (program, site, falsified condition) that produced the condition error, and accepted programs with >= 1 condition",
 		Assumptions: []string{
 			"oracle: applicable conditions = own + those of every interface in the transitive conformance closure; success iff none is false; a failure must be a ConditionError carrying the message of the only false condition; post blocks also assert before(self.n)+1 == self.n (body increments n) and result == x+100",
